@@ -16,6 +16,14 @@ stage 4  every observation (+ observations for grammar-generated URLs beyond the
          validated by TLC against spec/Url_Trace.tla: Url!WireClauses returns the set of failing
          clauses (hard), WireDrift compares with the canonical image where the Rules leave latitude
 
+History / fault classes (spec/UrlHistory.tla, MC_UrlHistory.tla): TLC enumerates every history of 2 (quick) /
+3 (thorough) consecutive requests to different origins through ONE manager (PoolManager / ProxyManager x default
+headers none / non-empty x per-request headers x "name resolution fails for the dial name"), checks the Rules on
+the design model, refutes them with each named deviation enabled (DefaultHeadersMutated -> WireHostEveryRequest,
+RedialStrippedName -> WireDialHostEveryAttempt) and emits the histories; each is replayed on a real manager
+(connect script raising socket.gaierror for the dial name) and judged by Url!HistClauses: every request on its OWN
+URL, every dial attempt (Wire:DialHost), urllib3 error on resolution failure, default headers unchanged.
+
 Watchdog: every request is driven in a forked worker under a CPU-time budget (vh/guard.py: max(2 s,
 200 x median per-input CPU time) of WORKER CPU time); a URL whose evaluation is killed is recorded
 with the observation "did-not-return" (hard clause Wire:DidNotReturn).  The harness never hangs.
@@ -115,7 +123,7 @@ def drive(url, px, variants=()):
     """One observation: GET `url` (then each variant) through one fresh manager over one fresh network."""
     import urllib3
     obs = {"kind": "wire", "s": cps(url), "px": cps(PROXY_URL) if px == "proxy" else NONE, "k": "sent", "dials": [],
-           "req": [], "snis": [], "vars": [], "exp": []}
+           "req": [], "snis": [], "vars": [], "exp": [], "fault": False, "u3": False}
     with warnings.catch_warnings():
         warnings.simplefilter("ignore")
         with net.Net(_responder) as n:
@@ -125,20 +133,22 @@ def drive(url, px, variants=()):
 
             def one(u):
                 d0, r0, s0 = len(n.dials), len(n.requests()), len(ctx.calls)
+                u3 = False
                 try:
                     resp = pm.request("GET", u, redirect=False)
                     k = "sent" if resp.status == 200 else f"status{resp.status}"
                 except Exception as ex:
                     k = type(ex).__name__
+                    u3 = isinstance(ex, urllib3.exceptions.HTTPError)
                 reqs = n.requests()[r0:]
-                return {"k": k, "dials": [[_host_cps(a[0]), int(a[1]) if isinstance(a[1], int) else -1] for _c, a, *_ in n.dials[d0:]],
+                return {"k": k, "u3": u3, "dials": [[_host_cps(a[0]), int(a[1]) if isinstance(a[1], int) else -1] for _c, a, *_ in n.dials[d0:]],
                         "req": [{"m": q.method, "t": cps(q.target), "hosts": [cps(v) for kk, v in q.headers if kk.lower() == "host"]}
                                 for _c, q in reqs],
                         "raw": b"\x00".join(q.raw for _c, q in reqs[-1:]),
                         "snis": [NONE if h is None else cps(h) for h in ctx.calls[s0:]]}
 
             first = one(url)
-            obs.update(k=first["k"], dials=first["dials"], req=first["req"], snis=first["snis"])
+            obs.update(k=first["k"], u3=first["u3"], dials=first["dials"], req=first["req"], snis=first["snis"])
             try:
                 pool0 = pm.connection_from_url(url)
             except Exception:
@@ -153,6 +163,67 @@ def drive(url, px, variants=()):
                                     "samebytes": bool(first["k"] == "sent" and o["k"] == "sent" and o["raw"] == first["raw"])})
             pm.clear()
     return obs
+
+
+def _responder_close(peer, req):
+    """history runs: every reply closes the connection, so every request of a history dials anew"""
+    if req.method == "CONNECT":
+        return net.Reply(b"HTTP/1.1 200 Connection established\r\n\r\n")
+    return net.Reply(net.http_response(200, b"ok", keepalive=False), close=True)
+
+
+MGR_HEADERS = {"X-Mgr": "1"}
+REQ_HEADERS = {"X-Req": "1"}
+
+
+def drive_history(job):
+    """Consecutive requests through ONE manager.  job = (px, mgrhdr, [(url, perreq, fail), ...]).
+    fail: name resolution fails for the dial name - create_connection raises socket.gaierror for the first
+    name this request dials, and only for that name (any other spelling "resolves")."""
+    import socket
+
+    import urllib3
+    px, mgrhdr, steps = job
+    cur = {"fail": False, "name": None}
+
+    def script(cid, address):
+        if cur["fail"]:
+            if cur["name"] is None:
+                cur["name"] = address[0]
+            if address[0] == cur["name"]:
+                return {"connect": socket.gaierror(-2, "Name or service not known")}
+        return {}
+
+    out = {"kind": "hist", "px": cps(PROXY_URL) if px == "proxy" else NONE, "steps": [], "hdr0": [], "hdr1": []}
+    with warnings.catch_warnings():
+        warnings.simplefilter("ignore")
+        with net.Net(_responder_close, scripts=script) as n:
+            ctx = RecordingContext()
+            kw = dict(retries=False, timeout=5, ssl_context=ctx, cert_reqs="CERT_NONE")
+            if mgrhdr:
+                kw["headers"] = dict(MGR_HEADERS)
+            pm = urllib3.PoolManager(**kw) if px == "none" else urllib3.ProxyManager(PROXY_URL, **kw)
+            out["hdr0"] = [[cps(str(k)), cps(str(v))] for k, v in pm.headers.items()]
+            for url, perreq, fail in steps:
+                cur["fail"], cur["name"] = bool(fail), None
+                d0, r0, s0 = len(n.dials), len(n.requests()), len(ctx.calls)
+                u3 = False
+                try:
+                    resp = pm.request("GET", url, redirect=False, **({"headers": dict(REQ_HEADERS)} if perreq else {}))
+                    k = "sent" if resp.status == 200 else f"status{resp.status}"
+                except Exception as ex:
+                    k = type(ex).__name__
+                    u3 = isinstance(ex, urllib3.exceptions.HTTPError)
+                reqs = n.requests()[r0:]
+                out["steps"].append({
+                    "s": cps(url), "px": out["px"], "k": k, "u3": u3, "fault": bool(fail), "vars": [], "exp": [],
+                    "dials": [[_host_cps(a[0]), int(a[1]) if isinstance(a[1], int) else -1] for _c, a, *_ in n.dials[d0:]],
+                    "req": [{"m": q.method, "t": cps(q.target), "hosts": [cps(v) for kk, v in q.headers if kk.lower() == "host"]}
+                            for _c, q in reqs],
+                    "snis": [NONE if h is None else cps(h) for h in ctx.calls[s0:]]})
+            out["hdr1"] = [[cps(str(k)), cps(str(v))] for k, v in pm.headers.items()]
+            pm.clear()
+    return out
 
 
 def validate(traces):
@@ -224,7 +295,8 @@ def guarded_drive(jobs, res):
     for i in dnr:
         url, px, variants = jobs[i]
         obs[i] = {"kind": "wire", "s": cps(url), "px": cps(PROXY_URL) if px == "proxy" else NONE, "k": "did-not-return",
-                  "dials": [], "req": [], "snis": [], "vars": [], "exp": [], "varsrc": [cps(v) for v in variants]}
+                  "dials": [], "req": [], "snis": [], "vars": [], "exp": [], "fault": False, "u3": False,
+                  "varsrc": [cps(v) for v in variants]}
     res["dnr"] = res.get("dnr", 0) + len(dnr)
     res["skipped"] = res.get("skipped", 0) + len(info["skipped"])
     res["budget_s"] = max(res.get("budget_s", 0.0), info["budget_s"])
@@ -337,13 +409,126 @@ def _random_shard(job):
     return res
 
 
+# ------------------------------------------------------------------------------ history / fault classes
+
+HIST_CFG = """SPECIFICATION ShardSpec
+CONSTANTS Alphabet <- HTrAlphabet
+  MaxLen = 0
+  Seeds <- HTrSeeds
+  Grow = FALSE
+  Origins <- MCOrigins
+  MaxReq = {n}
+  Deviations <- {dev}
+  ProxyText <- MCProxyText
+  HLevel = {lvl}
+  HShard = {sh}
+  HShards = {shs}
+ACTION_CONSTRAINT ShardFirst
+{invs}
+CHECK_DEADLOCK FALSE
+"""
+HIST_INVS = ["OriginsDefined", "WireHostEveryRequest", "WireDialHostEveryAttempt", "EveryRequestConforms",
+             "DefaultHeadersUnchanged", "FaultSurfaces"]
+# named deviation -> the invariant TLC must refute when the deviation is enabled
+HIST_DEVIATIONS = {"DevMutated": "WireHostEveryRequest", "DevRedial": "WireDialHostEveryAttempt"}
+
+
+def _hist_stage1(job):
+    """The design model with a named deviation enabled: TLC must refute the matching Rules invariant;
+    with no deviation every invariant holds (checked by the emission shards, which cover the space)."""
+    dev, n, lvl = job
+    invs = "".join(f"INVARIANT {i}\n" for i in HIST_INVS)
+    r = tlc.run("MC_UrlHistory", HIST_CFG.format(n=n, lvl=lvl, dev=dev, sh=0, shs=1, invs=invs), workers=1, heap="3g",
+                expect_fail=True, timeout=7200, extra=("-continue",))     # report every refuted invariant, not only the first
+    return {"dev": dev, "violated": sorted(set(r.violated)), "distinct": r.distinct, "generated": r.generated, "wall": r.wall,
+            "error": r.error}
+
+
+def _hist_shard(job):
+    n, lvl, sh, shs = job
+    res = _new_res()
+    res.update(emitted=0, expected_mismatch=0)
+    hists = []
+
+    def on_line(ln):
+        if not ln.startswith('<<"H", "'):
+            return False
+        if not ln.endswith('">>'):
+            raise tlc.MachineryError("truncated emission line: " + ln[:200])
+        hists.append(json.loads(ln[8:-3].replace('\\\\', '\x00').replace('\\"', '"').replace('\x00', '\\')))
+        res["emitted"] += 1
+        return True
+
+    invs = "".join(f"INVARIANT {i}\n" for i in HIST_INVS + ["EmitHist"])
+    r = tlc.run("MC_UrlHistory", HIST_CFG.format(n=n, lvl=lvl, dev="NoDeviations", sh=sh, shs=shs, invs=invs), workers=1,
+                on_line=on_line, timeout=7200)
+    res.update(distinct=r.distinct, generated=r.generated, violated=r.violated, wall=r.wall)
+    if r.violated:
+        return res
+    jobs = [("none" if h["px"] == NONE else "proxy", bool(h["mgrhdr"]),
+             [(text(st["u"]), bool(st["perreq"]), bool(st["fail"])) for st in h["steps"]]) for h in hists]
+    import urllib3  # noqa: F401
+    obs, dnr, info = guard.guarded_map(drive_history, jobs)
+    res["dnr"], res["skipped"], res["budget_s"], res["max_input_cpu_s"] = len(dnr), len(info["skipped"]), info["budget_s"], info["max_input_cpu_s"]
+    traces, expected = [], []
+    for i, (job_i, ob, h) in enumerate(zip(jobs, obs, hists)):
+        if i in dnr:
+            ob = {"kind": "hist", "px": h["px"], "hdr0": [], "hdr1": [],
+                  "steps": [{"s": cps(job_i[2][0][0]), "px": h["px"], "k": "did-not-return", "u3": False, "fault": False, "vars": [],
+                             "exp": [], "dials": [], "req": [], "snis": []}]}
+        if ob is None:
+            continue
+        ob["job"] = [job_i[0], job_i[1], [[cps(u), p, f] for u, p, f in job_i[2]]]
+        res["evaluations"] += len(job_i[2])
+        traces.append(ob)
+        expected.append(h["exp"])
+    for clauses, ob, exp in zip(judge_hist(traces, res), traces, expected):
+        # the model's predicted observations (outcome class, every dial attempt): a difference the Rules accept is drift
+        got = [[st["k"], st["dials"]] for st in ob["steps"]]
+        want = [[e["k"], e["dials"]] for e in exp]
+        if not clauses and got != want:
+            res["ndrift"] += 1
+            if len(res["drift"]) < 5:
+                res["drift"].append(f"history model: observed {got} expected {want}")
+    return res
+
+
+def describe_hist(ob):
+    return " ; ".join(describe(dict(st, vars=[])) for st in ob["steps"]) + \
+        f" ; manager default headers before={[(text(a), text(b)) for a, b in ob['hdr0']]} after={[(text(a), text(b)) for a, b in ob['hdr1']]}"
+
+
+def judge_hist(traces, res):
+    allc = []
+    for i in range(0, len(traces), 1000):
+        part = traces[i:i + 1000]
+        for (clauses, _drift, facts), ob in zip(validate(part), part):
+            res["traces"] += 1
+            clauses = [c for c in clauses if c != "-"]
+            allc.append(clauses)
+            if any(c.startswith("Machinery") for c in clauses):
+                raise tlc.MachineryError(f"{clauses} on a history")
+            res["judged"] += 1
+            for m in facts.get("modes", []):
+                res["modes"][m] = res["modes"].get(m, 0) + 1
+            res["nontrivial"].add("hist:" + json.dumps(ob["job"]))
+            for c in clauses or ["ok"]:
+                res["clauses"][c] = res["clauses"].get(c, 0) + 1
+            for c in clauses:
+                if len(res["bad"]) < 30:
+                    res["bad"].append((c, facts, ob))
+    return allc
+
+
 # ------------------------------------------------------------------------------ reporting
 
 def _report(rep, findings, clause, facts, ob):
     f = dict(facts)
     f["clause"] = clause
     k = known.match(findings, f)
-    if k:
+    if ob.get("kind") == "hist":
+        rep.violation(clause, f"{clause}: {describe_hist(ob)}", {"kind": "hist", "job": ob["job"], "clause": clause})
+    elif k:
         rep.known.append((k["id"], k["what"]))
     else:
         rep.violation(clause, f"{clause}: {describe(ob)}",
@@ -362,7 +547,7 @@ def _absorb(rep, findings, o, tally, seen_bad):
         if seen_bad[key] <= 3:          # a few representatives per (clause, input class)
             _report(rep, findings, clause, facts, ob)
         elif not known.match(findings, dict(facts, clause=clause)):
-            rep.violations.append({"clause": clause, "what": "(further instance) " + text(ob["s"]), "replay": rep.violations[-1]["replay"] if rep.violations else None})
+            rep.violations.append({"clause": clause, "what": "(further instance) " + text(ob["s"] if "s" in ob else ob["steps"][0]["s"]), "replay": rep.violations[-1]["replay"] if rep.violations else None})
     for d in o["drift"]:
         rep.drift.append(d)
     for s in o["samples"]:
@@ -381,11 +566,44 @@ def run(rep):
                        "IDNA is an opaque table (two labels); other non-ASCII hosts are not judged",
                        "vh/net.py request parser, TLC and CPython http.client are trusted (http.client is also part of what is observed)"]
     lvl, shs, nrand, per = (1, 8, 1200, 100) if quick else (2, 11, 24000, 750)
+    hn, hlvl, hshs = (2, 1, 4) if quick else (3, 2, 16)
     tally, seen_bad = {}, {}
     with mp.Pool(JOBS) as pool:
+        # the refutations are design-level facts: the small space suffices (and -continue prints every counter-example)
+        dev_async = pool.map_async(_hist_stage1, [(dev, 2, 1) for dev in HIST_DEVIATIONS], chunksize=1)
+        hist_async = pool.map_async(_hist_shard, [(hn, hlvl, sh, hshs) for sh in range(hshs)], chunksize=1)
         rnd_async = pool.map_async(_random_shard, [(rep.seed * 9176 + 31 * i + 7, per) for i in range(nrand // per)])
         outs = pool.map(_shape_shard, [(lvl, sh, shs) for sh in range(shs)], chunksize=1)
         rnd = rnd_async.get()
+        houts = hist_async.get()
+        devs = dev_async.get()
+    # ---- history / fault classes: stage 1 on the design model (spec/UrlHistory.tla)
+    for o in houts:
+        for v in o["violated"]:
+            rep.violation("Stage1:" + v, f"TLC: invariant {v} violated in spec/UrlHistory.tla with no deviation enabled", {"kind": "stage1"})
+    for d in devs:
+        want = HIST_DEVIATIONS[d["dev"]]
+        if d["error"] or want not in d["violated"]:
+            raise tlc.MachineryError(f"UrlHistory: deviation {d['dev']} enabled but TLC did not refute {want} (got {d['violated']}, {d['error']}) - vacuous Rules")
+        rep.stage1.append({"run": f"MC_UrlHistory MaxReq=2 HLevel=1 deviation {d['dev']} (expected refutation)",
+                           "distinct_states": d["distinct"], "states_generated": d["generated"], "depth": 3,
+                           "wall_s": round(d["wall"], 1), "refuted_invariant": want})
+    norig = 3 if hlvl == 1 else 6
+    nhist = sum(o["emitted"] for o in houts)
+    if not rep.violations and nhist != 4 * (norig * 4) ** hn:
+        raise tlc.MachineryError(f"history emission incomplete: {nhist} histories, expected {4 * (norig * 4) ** hn}")
+    if not rep.violations and sum(o["traces"] + o.get("skipped", 0) for o in houts) != nhist:
+        raise tlc.MachineryError(f"{nhist} histories emitted but {sum(o['traces'] for o in houts)} validated")
+    rep.states += sum(o["distinct"] for o in houts)
+    rep.transitions += sum(o["generated"] for o in houts)
+    rep.stage1.append({"run": f"MC_UrlHistory MaxReq={hn} HLevel={hlvl} no deviation ({hshs} shards)", "distinct_states": sum(o["distinct"] for o in houts),
+                       "states_generated": sum(o["generated"] for o in houts), "depth": hn + 1,
+                       "wall_s": round(max(o["wall"] for o in houts), 1), "invariants": HIST_INVS,
+                       "histories_emitted": nhist, "histories_replayed_and_validated": sum(o["traces"] for o in houts)})
+    rep.extra["history_class"] = {"histories": nhist, "requests": sum(o["evaluations"] for o in houts),
+                                  "managers": ["PoolManager", "ProxyManager(http proxy)"], "default_headers": ["none", "non-empty"],
+                                  "per_request_headers": [False, True], "fault": "socket.gaierror for the dial name",
+                                  "deviations_refuted_by_TLC": {d["dev"]: HIST_DEVIATIONS[d["dev"]] for d in devs}}
     nshapes = sum(o["distinct"] for o in outs)
     for o in outs:
         for v in o["violated"]:
@@ -408,17 +626,17 @@ def run(rep):
     if judged == 0:
         raise tlc.MachineryError("no shape was sent - vacuous")
     modes = {}
-    for o in outs + rnd:
+    for o in outs + rnd + houts:
         for m, c in o["modes"].items():
             modes[m] = modes.get(m, 0) + c
     for m in ("direct", "forward", "tunnel"):
         if not modes.get(m):
             raise tlc.MachineryError(f"mode {m} never exercised - vacuous")
-    for o in outs + rnd:
+    for o in outs + rnd + houts:
         _absorb(rep, findings, o, tally, seen_bad)
         rep.nontrivial.update(o["nontrivial"])
     rep.extra["verdict_tally"] = tally
-    allo = outs + rnd
+    allo = outs + rnd + houts
     rep.extra["watchdog"] = {"per_input_budget_cpu_s": max(o.get("budget_s", 0.0) for o in allo),
                              "rule": f"max({guard.FLOOR} s, {guard.FACTOR:g} x median per-input CPU time of the batch), worker CPU time",
                              "did_not_return": sum(o.get("dnr", 0) for o in allo),
@@ -442,6 +660,21 @@ def replay(rep, path):
     rep.rule = "replay of one recorded case"
     rep.nontrivial.update({1, 2})
     rep.states = rep.transitions = 1
+    if case.get("kind") == "hist":
+        job = (case["job"][0], case["job"][1], [(text(u), p, f) for u, p, f in case["job"][2]])
+        obs, dnr, _ = guard.guarded_map(drive_history, [job])
+        if dnr:
+            rep.violation("Wire:DidNotReturn", "the history did not return within the CPU-time budget", case)
+            return
+        obs[0]["job"] = case["job"]
+        res = _new_res()
+        judge_hist(obs, res)
+        rep.traces += 1
+        rep.evaluations += len(job[2])
+        for clause, facts, o in res["bad"]:
+            if clause == case.get("clause") or not case.get("clause"):
+                _report(rep, findings, clause, facts, o)
+        return
     if case.get("kind") != "wire":
         rep.violation(doc["clause"], "stage-1 violations are replayed by running the check again", case)
         return
